@@ -19,6 +19,7 @@ type FuncResult struct {
 	Abstr    []string
 	Trivial  int
 	Contract *FuncContract
+	Relied   map[string]map[string]bool // contract key of a callee -> labels of its postconditions assumed at call sites
 }
 
 // verifyFunction generates all obligations of one function under its contract.
@@ -38,6 +39,7 @@ func (p *Program) verifyFunction(fn *ssa.Function, fc *FuncContract, noAssume ma
 		}
 		res.Paths = x.paths
 		res.Obls = x.obls
+		res.Relied = x.relied
 		res.Vacuity = x.vacuity
 		res.Errors = x.errs
 		res.Trivial = x.safeTrivial
